@@ -155,9 +155,9 @@ def pr_(e):
     if isinstance(e, Choice):
         return ' | '.join(par(x, ()) for x in e.alts)
     if isinstance(e, Opt):
-        return par(e.e, (Seq, Choice, Assign, Rep, Opt, And, Not, Unord)) + '?'
+        return par_inner(e.e) + '?'
     if isinstance(e, Rep):
-        return par(e.e, (Seq, Choice, Assign, Rep, Opt, And, Not, Unord)) + ('+' if e.min else '*') + pr_mods(e.sep, e.eolterm)
+        return par_inner(e.e) + ('+' if e.min else '*') + pr_mods(e.sep, e.eolterm)
     if isinstance(e, Unord):
         return '(' + ' '.join(par(x, (Choice, Seq)) for x in e.items) + ')#'
     if isinstance(e, And):
@@ -173,6 +173,13 @@ def pr_(e):
             rhs = pr_simple(e.rhs)
         return e.attr + e.op + rhs + pr_mods(e.sep, e.eolterm)
     raise TypeError(e)
+
+def par_inner(x):
+    """operand of ? * +: a suppressed operand needs parentheses ('x'-+ is not textX; ('x'-)+ is)"""
+    if getattr(x, 'suppress', False):
+        return '(' + pr(x) + ')'
+    return par(x, (Seq, Choice, Assign, Rep, Opt, And, Not, Unord))
+
 
 def par(x, kinds):
     s = pr(x)
